@@ -51,6 +51,8 @@ type sessRT struct {
 	abortOne sync.Once
 	dialErr  string
 	user     string
+	totalAtDial0, totalAtDial1 int64 // the user's counted traffic when the dial started / returned
+	dialled  bool
 	wg       sync.WaitGroup
 }
 
@@ -100,7 +102,11 @@ func (rt *sessRT) runClientSide() {
 	if d := time.Duration(rt.spec.StartUs)*time.Microsecond - time.Since(w.start); d > 0 {
 		time.Sleep(d)
 	}
+	specUser := w.Spec.Server.Users[rt.cli.spec.User].Name
+	rt.totalAtDial0 = w.userTotal(specUser)
 	conn, err := w.dial(rt.cli, rt.key, rt.spec.UDPAssoc)
+	rt.totalAtDial1 = w.userTotal(specUser)
+	rt.dialled = true
 	if err != nil {
 		rt.dialErr = err.Error()
 		if conn != nil {
@@ -240,6 +246,9 @@ func (rt *sessRT) writer(conn net.Conn, dr *dirRT, sc *spec.Script, isClient boo
 			return
 		}
 		dr.writtenOK += int64(n)
+		if !isClient {
+			w.account(rt.user, 0, int64(n))
+		}
 		dr.lastWrite = time.Since(w.start)
 		dr.mu.Unlock()
 		off += int64(n)
@@ -298,6 +307,9 @@ func (rt *sessRT) reader(conn net.Conn, dr *dirRT, sc *spec.Script, rd int, isCl
 		buf := make([]byte, bs)
 		n, err := conn.Read(buf)
 		if n > 0 {
+			if !isClient {
+				w.account(rt.user, int64(n), 0)
+			}
 			rt.checkRead(dr, rd, buf[:n])
 			dr.mu.Lock()
 			dr.lastProg = time.Since(w.start)
@@ -520,10 +532,17 @@ func (w *World) onAccept(conn net.Conn, req *model.Request) {
 		return
 	}
 	resp := &model.Response{Reply: 0, BindAddr: model.AddrSpec{IP: net.IPv4zero, Port: 0}}
+	acctUser := ""
+	if uc, ok := conn.(apicommon.UserContext); ok {
+		acctUser = uc.UserName()
+	}
+	w.account(acctUser, int64(len(req.Raw)), 0) // Accept read the SOCKS request from the session
 	w.wg.Add(1)
 	go func() {
 		if err := resp.WriteToSocks5(conn); err != nil {
 			w.probe("socks-response-write-failed")
+		} else {
+			w.account(acctUser, 0, int64(len(resp.Raw)))
 		}
 		rt.runServerSide(conn)
 	}()
